@@ -21,6 +21,20 @@ type writerSpec struct {
 }
 
 var writerSpecs = []writerSpec{
+	{field: "internal/fmtmeta.Meta.TrailingComment", floor: 2, permitted: map[string]string{
+		"parser/rdparser.(*Parser).Parse":                 "a top-level expression's inline comment (written by writeTopLevel)",
+		"parser/rdparser.(*Parser).attachTrailingComment": "always on parent.Cells[last], a direct child of a list: never on the operand hidden inside a quote node",
+		"lisp.detachMeta":                                 "deep copy of metadata for a detached value",
+	}},
+	{field: "internal/fmtmeta.Meta.LeadingComments", floor: 2, permitted: map[string]string{
+		"parser/rdparser.(*Parser).tokenLVal":            "drains pending comments onto the node being built",
+		"parser/rdparser.(*Parser).hoistOperandComments": "moves a prefix form's operand comments onto the prefix node",
+		"lisp.detachMeta":                                "deep copy of metadata for a detached value",
+	}},
+	{field: "internal/fmtmeta.Meta.InnerTrailingComments", floor: 1, permitted: map[string]string{
+		"parser/rdparser.(*Parser).captureInnerTrailingComments": "comments between the last child and the closing bracket",
+		"lisp.detachMeta": "deep copy of metadata for a detached value",
+	}},
 	{field: "lisp.CallStack.Frames", floor: 2, permitted: map[string]string{
 		"lisp.(*CallStack).PushFID": "the only push (after the height check)",
 		"lisp.(*CallStack).Pop":     "the only pop",
@@ -242,6 +256,12 @@ func init() {
 		callerSpec{rule: "CALLERS.newScannerBuf", target: "parser/token.newScannerBuf", floor: 2, permitted: map[string]string{
 			"parser/token.NewScanner":       "the fixed DefaultBufSize window every source reader uses",
 			"parser/token.NewScannerString": "window sized to an in-memory fragment (callers restricted by CALLERS.NewScannerString)"}},
+	)
+	callerSpecs = append(callerSpecs,
+		callerSpec{rule: "CALLERS.hoistOperandComments", target: "parser/rdparser.Parser.hoistOperandComments", method: true, floor: 3, permitted: map[string]string{
+			"parser/rdparser.(*Parser).ParseQuote":   "comments in front of a quoted datum move onto the quote node, which the list printers write",
+			"parser/rdparser.(*Parser).ParseUnbound": "same for #^",
+			"parser/rdparser.(*Parser).ParseFunRef":  "same for #'"}},
 	)
 	for _, sp := range callerSpecs {
 		sp := sp
